@@ -180,7 +180,7 @@ _SIM_RE = re.compile(r"^The number of states generated: (\d+)")
 
 
 def run_tlc(module, cfg, name, workers=8, timeout=900, env=None, simulate=None, depth=None, xmx="8g",
-            deque=False, replay_to=None, coverage=True, keep_replay=True, sim_seed=None):
+            deque=False, replay_to=None, coverage=True, keep_replay=True, sim_seed=None, defs=None):
     """Run TLC on spec/<module>.tla with the given config text. REPLAY lines are parsed into result.replay
     (and/or streamed to the file replay_to as ndjson)."""
     ensure_dirs()
@@ -188,6 +188,21 @@ def run_tlc(module, cfg, name, workers=8, timeout=900, env=None, simulate=None, 
     shutil.rmtree(wd, ignore_errors=True)
     os.makedirs(wd)
     cfgp = os.path.join(wd, name + ".cfg")
+    root_module = module
+    if defs:
+        # constants that the config-file syntax cannot express (tuples, records) become definitions of a
+        # generated module that extends the instance; the config substitutes them (X <- def_X)
+        root_module = "G_" + re.sub(r"\W", "_", name)
+        with open(os.path.join(wd, root_module + ".tla"), "w") as f:
+            f.write("---- MODULE %s ----\nEXTENDS %s\n" % (root_module, module))
+            for k, v in defs.items():
+                f.write("def_%s == %s\n" % (k, v))
+            f.write("====\n")
+        sub = "".join("  %s <- def_%s\n" % (k, k) for k in defs)
+        if "CONSTANTS\n" in cfg:
+            cfg = cfg.replace("CONSTANTS\n", "CONSTANTS\n" + sub, 1)
+        else:
+            cfg = "CONSTANTS\n" + sub + cfg
     with open(cfgp, "w") as f:
         f.write(cfg)
     jopts = "-Xss1g"
@@ -196,7 +211,7 @@ def run_tlc(module, cfg, name, workers=8, timeout=900, env=None, simulate=None, 
     e = dict(os.environ, JAVA_TOOL_OPTIONS=jopts)
     if env:
         e.update(env)
-    cmd = ["java", "-XX:+UseParallelGC", "-Xmx" + xmx, "-cp",
+    cmd = ["java", "-XX:+UseParallelGC", "-Xmx" + xmx, "-DTLA-Library=" + SPEC, "-cp",
            "/opt/veriftools/tla/tla2tools.jar:/opt/veriftools/tla/CommunityModules-deps.jar", "tlc2.TLC",
            "-workers", str(workers), "-metadir", os.path.join(wd, "md"), "-cleanup", "-noGenerateSpecTE",
            "-config", cfgp]
@@ -208,7 +223,7 @@ def run_tlc(module, cfg, name, workers=8, timeout=900, env=None, simulate=None, 
             cmd += ["-depth", str(depth)]
         if sim_seed is not None:
             cmd += ["-seed", str(sim_seed)]
-    cmd.append(module + ".tla")
+    cmd.append(os.path.join(wd, root_module + ".tla") if defs else module + ".tla")
     res = TLCResult()
     res.cmd = "tlc " + " ".join(cmd[cmd.index("tlc2.TLC") + 1:])
     logp = os.path.join(wd, "tlc.log")
